@@ -81,6 +81,8 @@ type pInput struct {
 	TraceOut  string            `json:"traceOut"`
 	StrictDir bool              `json:"strictDir"`
 	Model     string            `json:"model"` // name of the MC_Persist configuration (W2, W2b, W3)
+	// NoDir: the blocklist directory does not exist when the BlockList is built (a fresh install)
+	NoDir bool `json:"noDir"`
 }
 
 type pArrival struct {
@@ -635,12 +637,12 @@ func (r *pRun) converged() error {
 	}
 	for _, e := range mem {
 		if !contains(fm, e) {
-			// dropped by the loader: must be covered by what was kept (DESIGN 9)
-			if !fresh.Exists(e) {
-				r.violate("Converged", fmt.Sprintf("the reloaded list dropped %q although nothing it kept (%v) covers it", e, fm), nil)
-				return nil
-			}
-			r.res.Count("reload_dropped_subsumed", 1)
+			// "reloads to EXACTLY the in-memory list": an entry the loader drops because another entry covers it
+			// answers Exists alike today, but not after that other entry is removed (Remove(parent) leaves the child
+			// blocked in the running process and unblocked after a restart)
+			r.violate("Converged", fmt.Sprintf("every call returned: memory holds %v, `local` lists %v, the reloaded list holds %v: %q was dropped by the loader",
+				mem, local.raw, fm, e), nil)
+			return nil
 		}
 	}
 	return nil
@@ -651,7 +653,11 @@ var errTainted = fmt.Errorf("schedule outlived the 1 s refresh timer of New()")
 func (r *pRun) runSchedule(sched []string) error {
 	r.seq++
 	r.dir = filepath.Join(vh.Scratch(r.t), "c18-persist", fmt.Sprintf("%d-%d", os.Getpid(), r.seq))
-	if err := os.MkdirAll(r.dir, 0o750); err != nil {
+	if r.in.NoDir {
+		if err := os.MkdirAll(filepath.Dir(r.dir), 0o750); err != nil {
+			return err
+		}
+	} else if err := os.MkdirAll(r.dir, 0o750); err != nil {
 		return err
 	}
 	r.snaps = map[uint64][]string{}
